@@ -34,7 +34,7 @@ pub static DEF: CheckDef = CheckDef {
     case,
     render,
     crashy: false,
-    floors: &[(">=3-pending-at-stop", 0.40), ("fault:receive", 0.10), ("fault:send", 0.05), ("fault:flush", 0.05), ("probe:values>=5", 0.15)],
+    floors: &[(">=3-pending-at-stop", 0.30), ("fault:receive", 0.08), ("fault:send", 0.06), ("fault:flush", 0.06), ("probe:values>=5", 0.12), ("cause:shutdown-request", 0.04), ("cause:last-handle-dropped", 0.04), ("cause:broker-shutdown", 0.04), ("cause:broker-shutdown-connection", 0.04)],
     extra: Some(extra),
     extra_coverage: Some(extra_coverage),
 };
@@ -48,9 +48,9 @@ fn plan(t: Tier) -> Vec<ClassPlan> {
         Tier::Thorough => 20,
     };
     vec![
-        ClassPlan { class: "fault-random", cases: 4_000 * k, min_len: 12, max_len: 16 },
-        ClassPlan { class: "clean", cases: 5_000 * k, min_len: 12, max_len: 16 },
-        ClassPlan { class: "clean-late-abort", cases: 600 * k, min_len: 12, max_len: 16 },
+        ClassPlan { class: "fault-random", cases: 8_000 * k, min_len: 12, max_len: 16 },
+        ClassPlan { class: "clean", cases: 10_000 * k, min_len: 12, max_len: 16 },
+        ClassPlan { class: "clean-late-abort", cases: 800 * k, min_len: 12, max_len: 16 },
     ]
 }
 
